@@ -96,7 +96,9 @@ func ruleArgSwap(c *Ctx, rule string, fns []*FuncInfo, what string) {
 	c.Floor(rule, "calls examined", 1, calls)
 }
 
-func itoa(n int) string { return strings.TrimSpace(strings.Replace(strings.Repeat(" ", 0)+fmtInt(n), " ", "", -1)) }
+func itoa(n int) string {
+	return strings.TrimSpace(strings.Replace(strings.Repeat(" ", 0)+fmtInt(n), " ", "", -1))
+}
 
 func fmtInt(n int) string {
 	if n == 0 {
